@@ -2,7 +2,7 @@
 import hashlib, random
 from .. import core
 
-SRCFACTS = ["rabin"]
+SRCFACTS = ["rabin", "leaves_crc"]
 RULE = ("texts: all 1-byte texts, 2-byte texts (all 65536 in thorough, a stride sample in quick), random byte-ish and "
         "Unicode texts (BMP + astral), canonical-form-like JSON texts, the empty text; non-trivial = distinct non-empty text; "
         "dispatch: every advertised algorithm name, Java spellings, unknown / near-miss names")
